@@ -3,7 +3,7 @@ From LibcoapV Require Import Base.Tactics Nstart.Nstart.
 Local Open Scope Z_scope.
 
 (* ---------------------------------------------------------------- the code as found *)
-Definition ns_cfg_found : ns_cfg := ns_mkcfg 1 4 true false.
+Definition ns_cfg_found : ns_cfg := ns_mkcfg 1 4 true false true.
 Definition ns_witness : list ns_ev :=
   [NsSubmit (ns_mkmsg true 1 11); NsSubmit (ns_mkmsg false 2 12); NsSubmit (ns_mkmsg true 3 13);
    NsRst 2].
@@ -1007,7 +1007,7 @@ Definition ns_fmid (s : ns_st) (r : Z) : list ns_out :=
   then [] else ns_ffb s r.
 
 Lemma ns_fail_shape c s r : (r =? ns_ICMP) = false ->
-  ns_fail c s r = (ns_mkst false (ns_udp c) 0 [] [] [],
+  ns_fail c s r = (ns_mkst (negb (ns_client c)) (ns_udp c) 0 [] [] [],
                    ns_ffirst s r ++ ns_drops r (ns_dq s) ++ ns_fmid s r ++ ns_nacks r (ns_sq s)).
 Proof. intros E. unfold ns_fail, ns_ffirst, ns_fmid, ns_ffb. rewrite E. reflexivity. Qed.
 
@@ -1290,7 +1290,10 @@ Theorem ns_fail_nacks c est0 evs r : ns_wf c -> NoDup (ns_sub_mids evs) -> r <> 
   let o := snd (ns_step c s (NsFail r)) in
   ns_dq s' = [] /\ ns_sq s' = [] /\ ns_txs o = [] /\ ns_res o = [] /\
   (forall q, In q (ns_dq s) -> ns_ncon q = true -> ns_nack_count (ns_nmid q) o = 1%nat) /\
-  (forall evs', ns_txs (flat_map snd (ns_trace c s' evs')) = [] /\
+  (forall evs' x, ~ In x (ns_sub_mids evs') ->
+                  ~ In x (map ns_mid (ns_txs (flat_map snd (ns_trace c s' evs'))))) /\
+  (ns_client c = true ->
+   forall evs', ns_txs (flat_map snd (ns_trace c s' evs')) = [] /\
                 ns_res (flat_map snd (ns_trace c s' evs')) = []).
 Proof.
   intros Hwf Hnd Hr s Ho s' o.
@@ -1310,7 +1313,17 @@ Proof.
       ns_res_nacks. split; reflexivity. }
   destruct T as [T1 T2]. split; [exact T1|]. split; [exact T2|].
   split; [intros q Hq Hc; apply ns_fail_count; assumption|].
-  intros evs'. apply ns_closed_silent. unfold ns_fail. rewrite Er. reflexivity.
+  split.
+  - intros evs' x Hx.
+    assert (Hi' : ns_inv c (fst (ns_fail c s r))).
+    { rewrite <- E. apply ns_step_inv; assumption. }
+    pose proof (ns_tx_budget c Hwf x evs' _ Hi') as Hbud.
+    rewrite (ns_fail_shape c s r Er) in Hbud. cbn [fst ns_dq map] in Hbud.
+    apply (count_occ_not_In Z.eq_dec) in Hx.
+    rewrite (ns_fail_shape c s r Er). cbn [fst].
+    apply (count_occ_not_In Z.eq_dec). unfold ns_cm in Hbud. cbn [map count_occ] in Hbud. lia.
+  - intros Hcl evs'. apply ns_closed_silent. rewrite (ns_fail_shape c s r Er). cbn [fst ns_open].
+    rewrite Hcl. reflexivity.
 Qed.
 
 (* soundness of the checker by itself: in any accepted history (of any implementation) the
@@ -1398,7 +1411,7 @@ Proof.
 Qed.
 
 (* ---------------------------------------------------------------- non-vacuity *)
-Definition ns_cfg_ex : ns_cfg := ns_mkcfg 2 1 true true.
+Definition ns_cfg_ex : ns_cfg := ns_mkcfg 2 1 true true true.
 Definition ns_evs_ex : list ns_ev :=
   [NsSubmit (ns_mkmsg true 1 101); NsSubmit (ns_mkmsg false 2 102); NsSubmit (ns_mkmsg true 3 103);
    NsSubmit (ns_mkmsg true 4 104); NsUp; NsSubmit (ns_mkmsg true 5 105); NsSubmit (ns_mkmsg false 6 106);
